@@ -2,12 +2,14 @@
   Property C13 — ABI type strings are accepted exactly when valid, and normalise idempotently.
   Model: FFS.Model.Abi (AbiTypes.lean) mirrors the parser of pkg/abi/typecomponents.go;
   the elementary type table is regenerated (FFS.Gen.AbiTypeTable). Spec: FFS.Spec.AbiGrammar.
-  Headline: `parse_agrees` / `accepts_iff_grammar` / `rendered_is_canonical` (parse ⇔ grammar with canonical spelling).
+  Headline: `parse_agrees` / `accepts_iff_grammar` / `rendered_is_canonical` (parse ⇔ grammar with canonical spelling),
+  `reparse` / `reparse_list` / `reparse_rendered` / `canonical_idempotent` (parsing the written-back definition yields the same tree).
 -/
 import FFS.Model.AbiTypes
 import FFS.Spec.AbiGrammar
 namespace FFS.Props.C13
 open FFS FFS.Model.Abi FFS.Gen.AbiTypeTable
+open FFS.Spec.AbiGrammar (isDigit decVal canonical arrayDims renderDims)
 
 /-- The regenerated elementary-type table is exactly the Solidity ABI's (limits, aliases, dynamic-ness).
     A changed limit in /repo breaks this and the harness sweeps the widths around it. -/
@@ -992,6 +994,610 @@ theorem outside_grammar_is_error (p : Param) (h : canon (toP p) = none) : parseP
   | err => rfl
   | ok t => rw [hp] at this; simp only [ElemAgrees] at this; rw [h] at this; cases this
 
+/-! ### parsing the canonical form again yields the same tree -/
+
+
+theorem decVal_append_single (a : List Char) (c : Char) : decVal (a ++ [c]) = decVal a * 10 + (c.toNat - 48) := by
+  simp [decVal, List.foldl_append]
+
+theorem digitChar_val (d : Nat) (h : d < 10) : (Nat.digitChar d).toNat - 48 = d ∧ isDigit (Nat.digitChar d) = true := by
+  have : ∀ m : Fin 10, (Nat.digitChar m.val).toNat - 48 = m.val ∧ isDigit (Nat.digitChar m.val) = true := by decide
+  exact this ⟨d, h⟩
+
+/-- the decimal digits of `n` are digits and denote `n` -/
+theorem decVal_toDigits (n : Nat) : decVal (Nat.toDigits 10 n) = n ∧ ∀ c ∈ Nat.toDigits 10 n, isDigit c = true := by
+  induction n using Nat.strongRecOn with
+  | _ n ih =>
+    rw [Nat.toDigits_eq_if (by decide)]
+    split
+    · rename_i hlt
+      obtain ⟨h1, h2⟩ := digitChar_val n hlt
+      refine ⟨by simp [decVal, h1], ?_⟩
+      intro c hc; simp only [List.mem_singleton] at hc; rw [hc]; exact h2
+    · rename_i hge
+      obtain ⟨i1, i2⟩ := ih (n / 10) (by omega)
+      obtain ⟨h1, h2⟩ := digitChar_val (n % 10) (by omega)
+      refine ⟨by rw [decVal_append_single, i1, h1]; omega, ?_⟩
+      intro c hc
+      rw [List.mem_append] at hc
+      rcases hc with hc | hc
+      · exact i2 c hc
+      · simp only [List.mem_singleton] at hc; rw [hc]; exact h2
+
+theorem toString_chars (k : Nat) : (toString k).toList = Nat.toDigits 10 k := by
+  rw [Nat.toString_eq_repr, Nat.toList_repr]
+
+/-- one step of the grammar's array reader, spelled out -/
+theorem arrayDims_step (j : Nat) (rest : List Char) :
+    arrayDims (j + 1) ('[' :: rest) =
+      match rest.dropWhile isDigit with
+      | ']' :: more =>
+        match (if (rest.takeWhile isDigit).isEmpty then some none
+               else if decVal (rest.takeWhile isDigit) < 2 ^ 32 then some (some (decVal (rest.takeWhile isDigit))) else none),
+              arrayDims j more with
+        | some d, some r => some (d :: r)
+        | _, _ => none
+      | _ => none := by
+  rw [arrayDims]
+  rfl
+
+/-- every dimension the grammar reads off a suffix fits 32 bits -/
+theorem arrayDims_valid : ∀ (f : Nat) (s : List Char) (dims : List (Option Nat)), arrayDims f s = some dims →
+    ∀ k, some k ∈ dims → k < 2 ^ 32 := by
+  intro f
+  induction f with
+  | zero => intro s dims h; simp [arrayDims] at h
+  | succ j ih =>
+    intro s dims h k hk
+    cases s with
+    | nil => simp [arrayDims] at h; subst h; simp at hk
+    | cons c rest =>
+      by_cases hc : c = '['
+      · subst hc
+        rw [arrayDims_step] at h
+        split at h
+        · rename_i more hdw
+          split at h
+          · rename_i d r hd hr
+            injection h with h
+            subst h
+            simp only [List.mem_cons] at hk
+            rcases hk with hk | hk
+            · split at hd
+              · injection hd with hd; rw [← hd] at hk; cases hk
+              · split at hd
+                · rename_i hlt
+                  injection hd with hd
+                  rw [← hd] at hk
+                  injection hk with hk
+                  rw [hk]; exact hlt
+                · cases hd
+            · exact ih more r hr k hk
+          · cases h
+        · cases h
+      · have : arrayDims (j + 1) (c :: rest) = none := by
+          unfold arrayDims
+          split
+          case h_1 => rfl
+          case h_2 => simp_all
+          case h_3 => simp_all
+          case h_4 => rfl
+        rw [this] at h; cases h
+
+
+theorem isDigit_close : isDigit ']' = false := by decide
+
+/-- reading the rendered dimensions back gives the dimensions -/
+theorem arrayDims_render : ∀ (dims : List (Option Nat)) (f : Nat), (∀ k, some k ∈ dims → k < 2 ^ 32) →
+    (renderDims dims).toList.length < f → arrayDims f (renderDims dims).toList = some dims
+  | [], f, _, hl => by
+    cases f with
+    | zero => simp at hl
+    | succ j => simp [renderDims, arrayDims]
+  | none :: r, f, hv, hl => by
+    have hchars : (renderDims (none :: r)).toList = '[' :: ']' :: (renderDims r).toList := by
+      simp [renderDims, String.toList_append]
+    rw [hchars] at hl ⊢
+    cases f with
+    | zero => simp at hl
+    | succ j =>
+      rw [arrayDims_step]
+      have h1 : (']' :: (renderDims r).toList).dropWhile isDigit = ']' :: (renderDims r).toList := by
+        simp [List.dropWhile_cons, isDigit_close]
+      have h2 : (']' :: (renderDims r).toList).takeWhile isDigit = [] := by
+        simp [List.takeWhile_cons, isDigit_close]
+      rw [h1, h2]
+      simp only [List.isEmpty_nil, if_true]
+      rw [arrayDims_render r j (fun k hk => hv k (by simp [hk])) (by simp at hl ⊢; omega)]
+  | some k :: r, f, hv, hl => by
+    have hchars : (renderDims (some k :: r)).toList = '[' :: (Nat.toDigits 10 k ++ ']' :: (renderDims r).toList) := by
+      simp [renderDims, String.toList_append, toString_chars]
+    rw [hchars] at hl ⊢
+    obtain ⟨hval, hdig⟩ := decVal_toDigits k
+    cases f with
+    | zero => simp at hl
+    | succ j =>
+      rw [arrayDims_step]
+      have h1 : (Nat.toDigits 10 k ++ ']' :: (renderDims r).toList).dropWhile isDigit = ']' :: (renderDims r).toList := by
+        rw [dropWhile_append_of_all _ _ _ hdig]
+        simp [List.dropWhile_cons, isDigit_close]
+      have h2 : (Nat.toDigits 10 k ++ ']' :: (renderDims r).toList).takeWhile isDigit = Nat.toDigits 10 k := by
+        rw [takeWhile_append_of_all _ _ _ hdig]
+        simp [List.takeWhile_cons, isDigit_close]
+      rw [h1, h2]
+      have hne : (Nat.toDigits 10 k).isEmpty = false := by
+        cases hd : Nat.toDigits 10 k with
+        | nil => exact absurd hd Nat.toDigits_ne_nil
+        | cons _ _ => rfl
+      have hk : k < 2 ^ 32 := hv k (by simp)
+      simp only [hne, Bool.false_eq_true, if_false, hval, hk, if_true]
+      rw [arrayDims_render r j (fun k' hk' => hv k' (by simp [hk'])) (by simp at hl ⊢; omega)]
+
+
+mutual
+  /-- the type string of a parsed tree: what a JSON ABI writes in `type` -/
+  def typeStr : Ty → String
+    | .elem info sfx _ _ => info.name ++ sfx
+    | .farr c k => typeStr c ++ "[" ++ toString k ++ "]"
+    | .darr c => typeStr c ++ "[]"
+    | .tuple _ _ => "tuple"
+  /-- ... and its `components` -/
+  def compsOf : Ty → List Param
+    | .elem _ _ _ _ => []
+    | .farr c _ => compsOf c
+    | .darr c => compsOf c
+    | .tuple names ts => paramsOf names ts
+  def paramsOf : List String → List Ty → List Param
+    | n :: ns, t :: ts => .mk n (typeStr t) false "" (compsOf t) :: paramsOf ns ts
+    | _, _ => []
+end
+
+theorem typeStr_wrap : ∀ (dims : List (Option Nat)) (c : Ty), typeStr (wrap c dims) = typeStr c ++ renderDims dims
+  | [], c => by simp [wrap, renderDims]
+  | none :: r, c => by
+    rw [wrap, typeStr_wrap r, typeStr, renderDims, String.append_assoc]
+  | some k :: r, c => by
+    rw [wrap, typeStr_wrap r, typeStr, renderDims]
+    simp [String.append_assoc]
+
+theorem compsOf_wrap : ∀ (dims : List (Option Nat)) (c : Ty), compsOf (wrap c dims) = compsOf c
+  | [], c => by simp [wrap]
+  | none :: r, c => by rw [wrap, compsOf_wrap r, compsOf]
+  | some k :: r, c => by rw [wrap, compsOf_wrap r, compsOf]
+
+/-- the rendered dimensions are empty or start with a bracket -/
+theorem renderDims_head : ∀ (dims : List (Option Nat)), (dims = [] ∧ (renderDims dims).toList = []) ∨
+    (dims ≠ [] ∧ ∃ rest, (renderDims dims).toList = '[' :: rest)
+  | [] => Or.inl ⟨rfl, by simp [renderDims]⟩
+  | none :: r => Or.inr ⟨by simp, ⟨_, by simp [renderDims, String.toList_append]; rfl⟩⟩
+  | some k :: r => Or.inr ⟨by simp, ⟨_, by simp [renderDims, String.toList_append]; rfl⟩⟩
+
+/-- how the model cuts `B ++ D` when `B` has no bracket and `D` is empty or starts with one -/
+theorem model_split (B D : List Char) (hB : ∀ c ∈ B, (c != '[') = true) (hD : D = [] ∨ ∃ rest, D = '[' :: rest) :
+    (B ++ D).takeWhile isLower = B.takeWhile isLower ∧
+    ((B ++ D).drop (B.takeWhile isLower).length).takeWhile (· != '[') = B.drop (B.takeWhile isLower).length ∧
+    ((B ++ D).drop (B.takeWhile isLower).length).dropWhile (· != '[') = D := by
+  have hsplit := List.takeWhile_append_dropWhile (p := isLower) (l := B)
+  have hdl := drop_length_takeWhile isLower B
+  have hlow := takeWhile_all isLower B
+  have hnotlower : ∀ rest, D = '[' :: rest → isLower '[' = false := fun _ _ => by decide
+  have h1 : (B ++ D).takeWhile isLower = B.takeWhile isLower := by
+    conv => lhs; rw [← hsplit, List.append_assoc, takeWhile_append_of_all _ _ _ hlow]
+    have : (B.dropWhile isLower ++ D).takeWhile isLower = [] := by
+      cases hd : B.dropWhile isLower with
+      | nil =>
+        rcases hD with h | ⟨rest, h⟩ <;> subst h
+        · rfl
+        · simp [List.takeWhile_cons]; decide
+      | cons c t =>
+        have := List.head_dropWhile_not (p := isLower) (l := B) (by rw [hd]; simp)
+        simp only [hd, List.head_cons] at this
+        simp [List.takeWhile_cons, this]
+    rw [this, List.append_nil]
+  have hdrop : (B ++ D).drop (B.takeWhile isLower).length = B.drop (B.takeWhile isLower).length ++ D := by
+    rw [List.drop_append_of_le_length (by
+      have := congrArg List.length hsplit
+      rw [List.length_append] at this; omega)]
+  have hBd : ∀ c ∈ B.drop (B.takeWhile isLower).length, (c != '[') = true := fun c hc => hB c (List.mem_of_mem_drop hc)
+  refine ⟨h1, ?_, ?_⟩
+  · rw [hdrop, takeWhile_append_of_all _ _ _ hBd]
+    rcases hD with h | ⟨rest, h⟩ <;> subst h <;> simp [List.takeWhile_cons]
+  · rw [hdrop, dropWhile_append_of_all _ _ _ hBd]
+    rcases hD with h | ⟨rest, h⟩ <;> subst h <;> simp [List.dropWhile_cons]
+
+
+/-- what an accepted effective suffix looks like: empty, or starting with a digit; never a bracket -/
+def SuffixOK (s : List Char) : Prop :=
+  (s = [] ∨ ∃ c t, s = c :: t ∧ isDigit c = true) ∧ ∀ c ∈ s, (c != '[') = true
+
+theorem digit_ne_open {c : Char} (h : isDigit c = true) : (c != '[') = true := by
+  have := isDigit_mem h
+  simp only [digits, List.mem_cons, List.mem_nil_iff, or_false] at this
+  rcases this with h | h | h | h | h | h | h | h | h | h <;> subst h <;> decide
+
+theorem parseUint_digits {s : List Char} {bits v : Nat} (h : parseUint s bits = some v) :
+    s ≠ [] ∧ ∀ c ∈ s, isDigit c = true := by
+  rw [parseUint_eq] at h
+  split at h
+  · cases h
+  · rename_i hne
+    split at h
+    · rename_i hall
+      exact ⟨by intro hs; subst hs; simp at hne, fun c hc => List.all_eq_true.mp hall c hc⟩
+    · cases h
+
+theorem parseM_digits {info : ElemInfo} {s : List Char} {m : Nat} (h : parseM info s = some m) :
+    s ≠ [] ∧ ∀ c ∈ s, isDigit c = true := by
+  unfold parseM at h
+  cases hp : parseUint s 16 with
+  | none => rw [hp] at h; cases h
+  | some v => exact parseUint_digits hp
+
+theorem parseN_digits {info : ElemInfo} {s : List Char} {n : Nat} (h : parseN info s = some n) :
+    s ≠ [] ∧ ∀ c ∈ s, isDigit c = true := by
+  unfold parseN at h
+  cases hp : parseUint s 16 with
+  | none => rw [hp] at h; cases h
+  | some v => exact parseUint_digits hp
+
+theorem suffixOK_digits {s : List Char} (h : s ≠ [] ∧ ∀ c ∈ s, isDigit c = true) : SuffixOK s := by
+  obtain ⟨hne, hd⟩ := h
+  refine ⟨?_, fun c hc => digit_ne_open (hd c hc)⟩
+  cases s with
+  | nil => exact absurd rfl hne
+  | cons c t => exact Or.inr ⟨c, t, rfl, hd c (by simp)⟩
+
+/-- the elementary branch returns the table row with the effective suffix, and that suffix is well-shaped -/
+theorem elementaryOf_shape (info : ElemInfo) (suffix : List Char) (tc : Ty) (h : elementaryOf info suffix = .ok tc) :
+    (∃ m n, tc = .elem info (String.ofList suffix) m n) ∧ SuffixOK suffix := by
+  unfold elementaryOf at h
+  split at h
+  · split at h
+    · rename_i he
+      have : suffix = [] := by cases suffix with | nil => rfl | cons _ _ => simp at he
+      subst this
+      injection h with h
+      exact ⟨⟨_, _, h.symm⟩, Or.inl rfl, by simp⟩
+    · cases h
+  · split at h
+    · cases h
+    · cases hp : parseM info suffix with
+      | none => rw [hp] at h; cases h
+      | some m => rw [hp] at h; injection h with h; exact ⟨⟨_, _, h.symm⟩, suffixOK_digits (parseM_digits hp)⟩
+  · split at h
+    · rename_i he
+      have : suffix = [] := by cases suffix with | nil => rfl | cons _ _ => simp at he
+      subst this
+      injection h with h
+      exact ⟨⟨_, _, h.symm⟩, Or.inl rfl, by simp⟩
+    · cases hp : parseM info suffix with
+      | none => rw [hp] at h; cases h
+      | some m => rw [hp] at h; injection h with h; exact ⟨⟨_, _, h.symm⟩, suffixOK_digits (parseM_digits hp)⟩
+  · split at h
+    · cases h
+    · cases hp : parseMxN info suffix with
+      | none => rw [hp] at h; cases h
+      | some mn =>
+        rw [hp] at h
+        obtain ⟨m, n⟩ := mn
+        injection h with h
+        refine ⟨⟨_, _, h.symm⟩, ?_⟩
+        unfold parseMxN at hp
+        simp only [] at hp
+        split at hp
+        · cases hp
+        · cases hm : parseM info (suffix.takeWhile (· != 'x')) with
+          | none => rw [hm] at hp; cases hp
+          | some m' =>
+            rw [hm] at hp
+            simp only [] at hp
+            cases hn : parseN info (suffix.drop ((suffix.takeWhile (· != 'x')).length + 1)) with
+            | none => rw [hn] at hp; cases hp
+            | some n' =>
+              obtain ⟨hmne, hmd⟩ := parseM_digits hm
+              obtain ⟨_, hnd⟩ := parseN_digits hn
+              rcases mxn_split suffix with ⟨hdw, hlen⟩ | ⟨nn, hdw, hlen, hdrop⟩
+              · -- no x: the whole suffix is the M part
+                have hsplit := List.takeWhile_append_dropWhile (p := (· != 'x')) (l := suffix)
+                rw [hdw, List.append_nil] at hsplit
+                rw [hsplit] at hmne hmd
+                exact suffixOK_digits ⟨hmne, hmd⟩
+              · have hsplit := List.takeWhile_append_dropWhile (p := (· != 'x')) (l := suffix)
+                rw [hdw] at hsplit
+                rw [hdrop] at hnd
+                refine ⟨?_, ?_⟩
+                · cases htw : suffix.takeWhile (· != 'x') with
+                  | nil => exact absurd htw hmne
+                  | cons c t =>
+                    rw [htw] at hsplit hmd
+                    exact Or.inr ⟨c, t ++ 'x' :: nn, by rw [← hsplit]; rfl, hmd c (by simp)⟩
+                · intro c hc
+                  rw [← hsplit, List.mem_append] at hc
+                  rcases hc with hc | hc
+                  · exact digit_ne_open (hmd c hc)
+                  · simp only [List.mem_cons] at hc
+                    rcases hc with hc | hc
+                    · rw [hc]; decide
+                    · exact digit_ne_open (hnd c hc)
+
+
+theorem digit_not_lower {c : Char} (h : isDigit c = true) : isLower c = false := by
+  have := isDigit_mem h
+  simp only [digits, List.mem_cons, List.mem_nil_iff, or_false] at this
+  rcases this with h | h | h | h | h | h | h | h | h | h <;> subst h <;> decide
+
+/-- the elementary branch gives the same answer when handed its own effective suffix -/
+theorem parseElementary_again (et s0 : List Char) (tc : Ty) (h : parseElementary et s0 = .ok tc) :
+    ∃ info sfx m n, tc = .elem info sfx m n ∧ info.name = String.ofList et ∧ SuffixOK sfx.toList ∧
+      parseElementary et sfx.toList = .ok tc := by
+  unfold parseElementary at h
+  cases hf : table.find? (fun i => i.name == String.ofList et) with
+  | none => rw [hf] at h; cases h
+  | some info =>
+    rw [hf] at h
+    simp only [] at h
+    have hname : info.name = String.ofList et := by
+      have := List.find?_some hf
+      simpa using this
+    obtain ⟨⟨m, n, htc⟩, hok⟩ := elementaryOf_shape info _ tc h
+    refine ⟨info, String.ofList (if s0.isEmpty then info.defaultSuffix.toList else s0), m, n, htc, hname, by simpa using hok, ?_⟩
+    unfold parseElementary
+    rw [hf]
+    simp only [String.toList_ofList]
+    -- the effective suffix of the effective suffix is itself
+    have : (if (if s0.isEmpty then info.defaultSuffix.toList else s0).isEmpty then info.defaultSuffix.toList
+            else (if s0.isEmpty then info.defaultSuffix.toList else s0)) = (if s0.isEmpty then info.defaultSuffix.toList else s0) := by
+      by_cases h0 : s0.isEmpty = true
+      · simp only [h0, if_true]
+        by_cases hd : info.defaultSuffix.toList.isEmpty = true
+        · simp [hd]
+        · simp [hd]
+      · simp only [h0, Bool.false_eq_true, if_false]
+    rw [this]
+    exact h
+
+
+theorem paramsOf_names : ∀ (names : List String) (ts : List Ty), names.length = ts.length →
+    (paramsOf names ts).map Param.name = names
+  | [], [], _ => rfl
+  | n :: ns, t :: ts, h => by
+    simp only [paramsOf, List.map_cons, Param.name]
+    rw [paramsOf_names ns ts (by simpa using h)]
+  | [], _ :: _, h => by simp at h
+  | _ :: _, [], h => by simp at h
+
+theorem parseParams_length : ∀ (ps : List Param) (ts : List Ty), parseParams ps = .ok ts → ts.length = ps.length
+  | [], ts, h => by simp only [parseParams] at h; injection h with h; subst h; rfl
+  | p :: ps, ts, h => by
+    simp only [parseParams] at h
+    cases hp : parseParam p with
+    | err => rw [hp] at h; cases h
+    | panic => rw [hp] at h; cases h
+    | ok t =>
+      rw [hp] at h
+      simp only [] at h
+      cases hps : parseParams ps with
+      | err => rw [hps] at h; cases h
+      | panic => rw [hps] at h; cases h
+      | ok ts' =>
+        rw [hps] at h
+        injection h with h; subst h
+        simp [parseParams_length ps ts' hps]
+
+/-- re-parsing a definition written from a base type `tc` and dimensions `dims` -/
+theorem parse_written (nm : String) (ix : Bool) (it : String) (tc : Ty) (dims : List (Option Nat)) (comps : List Param)
+    (hv : ∀ k, some k ∈ dims → k < 2 ^ 32)
+    (hB : ∀ c ∈ (typeStr tc).toList, (c != '[') = true)
+    (hbase : ∀ D : List Char, (D = [] ∨ ∃ rest, D = '[' :: rest) →
+      parseParam (.mk nm (String.ofList ((typeStr tc).toList ++ D)) ix it comps) =
+        (if D.isEmpty then .ok tc else parseArrays (D.length + 1) tc D)) :
+    parseParam (.mk nm (typeStr (wrap tc dims)) ix it comps) = .ok (wrap tc dims) := by
+  have hstr : typeStr (wrap tc dims) = String.ofList ((typeStr tc).toList ++ (renderDims dims).toList) := by
+    rw [typeStr_wrap]; apply String.ext; simp
+  rw [hstr]
+  rcases renderDims_head dims with ⟨hd, hD⟩ | ⟨hd, rest, hD⟩
+  · rw [hbase _ (Or.inl hD), hD, hd]
+    simp [wrap]
+  · rw [hbase _ (Or.inr ⟨rest, hD⟩)]
+    have hne : (renderDims dims).toList.isEmpty = false := by rw [hD]; rfl
+    rw [hne]
+    simp only [Bool.false_eq_true, if_false]
+    have h1 := arrayDims_render dims ((renderDims dims).toList.length + 1) hv (by omega)
+    have h2 := arrays_agree ((renderDims dims).toList.length + 1) ((renderDims dims).toList.length + 1) (renderDims dims).toList tc
+      (by omega) (by omega) (by rw [hD]; simp)
+    rw [h1] at h2
+    exact h2
+
+
+/-- what a successful parse consists of: a base type (tuple of the parsed components, or a table row) wrapped in the
+    dimensions the grammar reads off the array part -/
+theorem parse_decompose (name type : String) (idx : Bool) (it : String) (comps : List Param) (t : Ty)
+    (h : parseParam (.mk name type idx it comps) = .ok t) :
+    ∃ tc dims, t = wrap tc dims ∧ (∀ k, some k ∈ dims → k < 2 ^ 32) ∧
+      ((∃ ts, tc = .tuple (comps.map Param.name) ts ∧ parseParams comps = .ok ts) ∨
+       (∃ et s0, (∀ c ∈ et, isLower c = true) ∧ String.ofList et ≠ "tuple" ∧ parseElementary et s0 = .ok tc)) := by
+  unfold parseParam at h
+  simp only [] at h
+  split at h
+  · rename_i tc hb
+    -- the array part
+    have harr : ∃ dims, t = wrap tc dims ∧ (∀ k, some k ∈ dims → k < 2 ^ 32) := by
+      split at h
+      · injection h with h; exact ⟨[], by rw [← h]; rfl, by intro k hk; simp at hk⟩
+      · rename_i hne
+        generalize harrs : List.dropWhile (fun x => x != '[') (List.drop (List.takeWhile isLower type.toList).length type.toList) = arrays at h hne
+        have hne' : arrays ≠ [] := by intro h0; subst h0; simp at hne
+        have hag := arrays_agree (arrays.length + 1) (arrays.length + 1) arrays tc (by omega) (by omega) hne'
+        cases hd : arrayDims (arrays.length + 1) arrays with
+        | none => rw [hd] at hag; simp only [] at hag; rw [hag] at h; cases h
+        | some dims =>
+          rw [hd] at hag
+          simp only [] at hag
+          rw [hag] at h
+          injection h with h
+          exact ⟨dims, h.symm, arrayDims_valid _ _ _ hd⟩
+    obtain ⟨dims, ht, hv⟩ := harr
+    refine ⟨tc, dims, ht, hv, ?_⟩
+    split at hb
+    · -- tuple
+      split at hb
+      · cases hb
+      · cases hp : parseParams comps with
+        | err => rw [hp] at hb; cases hb
+        | panic => rw [hp] at hb; cases hb
+        | ok ts =>
+          rw [hp] at hb
+          injection hb with hb
+          exact Or.inl ⟨ts, hb.symm, rfl⟩
+    · rename_i hnt
+      refine Or.inr ⟨_, _, takeWhile_all isLower _, ?_, hb⟩
+      intro heq
+      apply hnt
+      rw [heq, tuple_keyword]
+      rfl
+  · cases h
+  · cases h
+
+
+/-- base case "tuple": the written definition has the keyword, no suffix, and components that parse to `ts` -/
+theorem base_tuple (nm : String) (ix : Bool) (it : String) (names : List String) (ts : List Ty) (comps' : List Param)
+    (hp : parseParams comps' = .ok ts) (hn : comps'.map Param.name = names)
+    (D : List Char) (hD : D = [] ∨ ∃ rest, D = '[' :: rest) :
+    parseParam (.mk nm (String.ofList ((typeStr (.tuple names ts)).toList ++ D)) ix it comps') =
+      (if D.isEmpty then .ok (.tuple names ts) else parseArrays (D.length + 1) (.tuple names ts) D) := by
+  have hts : (typeStr (.tuple names ts)).toList = ['t', 'u', 'p', 'l', 'e'] := by simp [typeStr]
+  rw [hts]
+  obtain ⟨h1, h2, h3⟩ := model_split ['t', 'u', 'p', 'l', 'e'] D (by decide) hD
+  have hlow : List.takeWhile isLower ['t', 'u', 'p', 'l', 'e'] = ['t', 'u', 'p', 'l', 'e'] := by decide
+  rw [hlow] at h1 h2 h3
+  unfold parseParam
+  simp only [String.toList_ofList, h1, h2, h3]
+  have hk : (String.ofList ['t', 'u', 'p', 'l', 'e'] == tupleTypeString) = true := by decide
+  simp only [hk, if_true, List.length_cons, List.length_nil, List.drop_succ_cons, List.drop_zero, List.drop_nil,
+    List.isEmpty_nil, Bool.not_true, Bool.and_false, Bool.false_eq_true, if_false, hp, hn]
+
+/-- base case "table row": the written name is the matched lowercase run, the written suffix the effective suffix -/
+theorem base_elem (nm : String) (ix : Bool) (it : String) (et s0 : List Char) (tc : Ty) (comps' : List Param)
+    (hlow : ∀ c ∈ et, isLower c = true) (hnt : String.ofList et ≠ "tuple") (h : parseElementary et s0 = .ok tc)
+    (D : List Char) (hD : D = [] ∨ ∃ rest, D = '[' :: rest) :
+    (∀ c ∈ (typeStr tc).toList, (c != '[') = true) ∧
+    parseParam (.mk nm (String.ofList ((typeStr tc).toList ++ D)) ix it comps') =
+      (if D.isEmpty then .ok tc else parseArrays (D.length + 1) tc D) := by
+  obtain ⟨info, sfx, m, n, htc, hname, hsfx, hagain⟩ := parseElementary_again et s0 tc h
+  have hts : (typeStr tc).toList = et ++ sfx.toList := by
+    rw [htc]; simp [typeStr, hname]
+  have hlow_ne : ∀ c ∈ et, (c != '[') = true := by
+    intro c hc
+    have := hlow c hc
+    cases hcc : (c != '[') with
+    | true => rfl
+    | false =>
+      have : c = '[' := by simpa using hcc
+      subst this
+      exact absurd (hlow _ hc) (by decide)
+  have hB : ∀ c ∈ (typeStr tc).toList, (c != '[') = true := by
+    rw [hts]; intro c hc
+    rcases List.mem_append.mp hc with hc | hc
+    · exact hlow_ne c hc
+    · exact hsfx.2 c hc
+  refine ⟨hB, ?_⟩
+  obtain ⟨h1, h2, h3⟩ := model_split (typeStr tc).toList D hB hD
+  have htw : List.takeWhile isLower (typeStr tc).toList = et := by
+    rw [hts, takeWhile_append_of_all _ _ _ hlow]
+    rcases hsfx.1 with h0 | ⟨c, t, h0, hc⟩
+    · rw [h0]; simp
+    · rw [h0]; simp [List.takeWhile_cons, digit_not_lower hc]
+  rw [htw] at h1 h2 h3
+  have hdrop : List.drop et.length (typeStr tc).toList = sfx.toList := by rw [hts]; simp
+  rw [hdrop] at h2
+  unfold parseParam
+  simp only [String.toList_ofList, h1, h2, h3]
+  have hk : (String.ofList et == tupleTypeString) = false := by
+    rw [tuple_keyword]
+    cases hb : (String.ofList et == "tuple") with
+    | false => rfl
+    | true => exact absurd (by simpa using hb) hnt
+  simp only [hk, Bool.false_eq_true, if_false, hagain]
+
+mutual
+  /-- C13, idempotence: a definition that parses, written back out (type string and components), parses to the same tree -/
+  theorem reparse : ∀ (p : Param) (t : Ty) (nm : String) (ix : Bool) (it : String), parseParam p = .ok t →
+      parseParam (.mk nm (typeStr t) ix it (compsOf t)) = .ok t
+    | .mk name type idx it0 comps, t, nm, ix, it, h => by
+      obtain ⟨tc, dims, ht, hv, hcase⟩ := parse_decompose name type idx it0 comps t h
+      subst ht
+      rw [compsOf_wrap]
+      rcases hcase with ⟨ts, htc, hp⟩ | ⟨et, s0, hlow, hnt, hpe⟩
+      · subst htc
+        have hlen := parseParams_length comps ts hp
+        have hnames := paramsOf_names (comps.map Param.name) ts (by simp [hlen])
+        have hagain := reparse_list comps ts hp
+        apply parse_written nm ix it _ dims _ hv (by simp [typeStr])
+        intro D hD
+        simp only [compsOf]
+        exact base_tuple nm ix it _ ts _ hagain hnames D hD
+      · have hcomps : compsOf tc = [] := by
+          obtain ⟨info, sfx, m, n, htc, _⟩ := parseElementary_again et s0 tc hpe
+          rw [htc]; simp [compsOf]
+        apply parse_written nm ix it _ dims _ hv (base_elem nm ix it et s0 tc [] hlow hnt hpe [] (Or.inl rfl)).1
+        intro D hD
+        rw [hcomps]
+        exact (base_elem nm ix it et s0 tc [] hlow hnt hpe D hD).2
+  theorem reparse_list : ∀ (ps : List Param) (ts : List Ty), parseParams ps = .ok ts →
+      parseParams (paramsOf (ps.map Param.name) ts) = .ok ts
+    | [], ts, h => by
+      simp only [parseParams] at h; injection h with h; subst h
+      simp [paramsOf, parseParams]
+    | p :: ps, ts, h => by
+      simp only [parseParams] at h
+      cases hp : parseParam p with
+      | err => rw [hp] at h; cases h
+      | panic => rw [hp] at h; cases h
+      | ok t =>
+        rw [hp] at h
+        simp only [] at h
+        cases hps : parseParams ps with
+        | err => rw [hps] at h; cases h
+        | panic => rw [hps] at h; cases h
+        | ok ts' =>
+          rw [hps] at h
+          injection h with h; subst h
+          simp only [List.map_cons, paramsOf, parseParams]
+          rw [reparse p t p.name false "" hp, reparse_list ps ts' hps]
+end
+
+/-- a tree with no tuple in it -/
+def tupleFree : Ty → Bool
+  | .elem _ _ _ _ => true
+  | .farr c _ => tupleFree c
+  | .darr c => tupleFree c
+  | .tuple _ _ => false
+
+/-- for a tuple-free tree the written type string *is* the rendered signature, and there are no components -/
+theorem typeStr_render : ∀ t : Ty, tupleFree t = true → typeStr t = render t ∧ compsOf t = []
+  | .elem _ _ _ _, _ => by simp [typeStr, render, compsOf]
+  | .farr c k, h => by
+    have := typeStr_render c (by simpa [tupleFree] using h)
+    simp [typeStr, render, compsOf, this.1, this.2]
+  | .darr c, h => by
+    have := typeStr_render c (by simpa [tupleFree] using h)
+    simp [typeStr, render, compsOf, this.1, this.2]
+  | .tuple _ _, h => by simp [tupleFree] at h
+
+/-- **Idempotence on rendered signatures**: for an accepted tuple-free type, parsing the rendered signature yields the
+    same tree. (For tuples the signature `(a,b)` is not itself a JSON-ABI type string; `reparse` is the statement over the
+    written-back definition: keyword `tuple`, the dimensions, and the components written back recursively.) -/
+theorem reparse_rendered (p : Param) (t : Ty) (nm : String) (ix : Bool) (it : String)
+    (h : parseParam p = .ok t) (hf : tupleFree t = true) : parseParam (.mk nm (render t) ix it []) = .ok t := by
+  have := reparse p t nm ix it h
+  rw [(typeStr_render t hf).1, (typeStr_render t hf).2] at this
+  exact this
+
+/-- … and normalisation is idempotent: the canonical spelling of the re-parsed definition is the same spelling -/
+theorem canonical_idempotent (p : Param) (t : Ty) (h : parseParam p = .ok t) :
+    canon (toP (.mk p.name (typeStr t) false "" (compsOf t))) = some (render t) :=
+  rendered_is_canonical _ t (reparse p t p.name false "" h)
+
 /-! ### non-vacuity: concrete inputs on which the hypotheses hold (evaluated by the kernel) -/
 def okB {α : Type} : Outcome α → Bool | .ok _ => true | _ => false
 /-- non-vacuity: canonical spellings are accepted, non-canonical and out-of-range ones are not -/
@@ -1000,5 +1606,9 @@ example : (okB (parseParam (.mk "a" "uint256[2][]" false "" [])) &&
            !okB (parseParam (.mk "a" "uint0256" false "" [])) &&
            !okB (parseParam (.mk "a" "uint257" false "" [])) &&
            !okB (parseParam (.mk "a" "uint256[" false "" []))) = true := by decide +kernel
+/-- non-vacuity of `reparse`: an aliased nested tuple array is accepted, and its written-back definition differs from
+    the input (the alias is expanded) -/
+example : okB (parseParam (.mk "a" "tuple[2][]" false "" [.mk "x" "uint" false "" [], .mk "y" "tuple" false "" [.mk "z" "bytes" false "" []]])) = true := by
+  decide +kernel
 
 end FFS.Props.C13
